@@ -3,7 +3,6 @@
 From Eino Require Import Base.Util Model.Isolation.
 From Coq Require Import Lia.
 
-Set Implicit Arguments.
 
 (* ---------------------------------------------------------------- lists *)
 
@@ -76,7 +75,7 @@ Section NonInterference.
   Lemma step_transfer : forall s1 s2 r s1' r', view s1 = view s2 -> stepw s1 r = Some (s1', r') ->
       exists s2', stepw s2 r = Some (s2', r').
   Proof.
-    intros s1 s2 r s1' r' Hv H. pose proof (reads_view_only r Hv) as E. rewrite H in E; simpl in E.
+    intros s1 s2 r s1' r' Hv H. pose proof (reads_view_only _ _ r Hv) as E. rewrite H in E; simpl in E.
     destruct (stepw s2 r) as [[s2' r2]|]; simpl in E; try discriminate. inversion E; subst. eauto.
   Qed.
 
@@ -92,7 +91,7 @@ Section NonInterference.
     induction sched as [|j sc IH]; simpl; intros g g' H i r Hr s0 Hv.
     - inversion H; subst. exists s0, r; auto.
     - destruct (gstep stepw j g) as [g1|] eqn:E; try discriminate.
-      pose proof (gstep_view _ _ E) as Hv1.
+      pose proof (gstep_view _ _ _ E) as Hv1.
       unfold gstep in E. destruct g as [s rs]; simpl in *.
       destruct (nth_error rs j) as [rj|] eqn:Ej; try discriminate.
       destruct (stepw s rj) as [[s1 r1]|] eqn:Es; try discriminate.
@@ -102,7 +101,7 @@ Section NonInterference.
         destruct (@step_transfer s s0 r s1 r1 (eq_sym Hv) Es) as [s0' Hs0].
         assert (Hn : nth_error (upd i r1 rs) i = Some r1) by (eapply nth_upd_same; eauto).
         assert (Hv0 : view s0' = view s1).
-        { rewrite (view_preserved _ _ Hs0). rewrite Hv. symmetry. exact Hv1. }
+        { rewrite (view_preserved _ _ _ _ Hs0). rewrite Hv. symmetry. exact Hv1. }
         destruct (IH (s1, upd i r1 rs) g' H i r1 Hn s0' Hv0) as (sf & rf & A & B & Cc).
         exists sf, rf. simpl. rewrite Hs0. rewrite Hn. simpl. rewrite Cc. auto.
       + apply Nat.eqb_neq in Eji.
@@ -155,11 +154,11 @@ Section PureTheorems.
                  /\ gproj (lift step) i sched (c, rs) = trace c (count i sched) r.
   Proof.
     intros c c' sched rs rs' H. split; [|split].
-    - exact (grun_view (stepw := lift step) (fun x : C => x) lift_view_preserved _ _ H).
-    - exact (grun_length _ _ H).
+    - exact (@grun_view _ _ _ (lift step) (fun x : C => x) lift_view_preserved sched (c, rs) (c', rs') H).
+    - exact (@grun_length _ _ (lift step) sched (c, rs) (c', rs') H).
     - intros i r Hr.
-      destruct (project_run (stepw := lift step) (fun x : C => x) lift_view_preserved lift_reads_view_only
-                  _ _ H i Hr (s0 := c) eq_refl) as (sf & rf & A & B & Cc).
+      destruct (@project_run _ _ _ (lift step) (fun x : C => x) lift_view_preserved lift_reads_view_only
+                  sched (c, rs) (c', rs') H i r Hr c eq_refl) as (sf & rf & A & B & Cc).
       exists rf. simpl in B. split; auto. rewrite solo_lift in A. rewrite solo_trace_lift in Cc.
       split; auto. destruct (iter step c (count i sched) r); simpl in A; inversion A; auto.
   Qed.
@@ -201,7 +200,7 @@ Section PureTheorems.
                  forall fuel, count i sched <= fuel -> run_alone step c fuel r = Some r'.
   Proof.
     intros c c' sched rs rs' H Hf i r Hr.
-    destruct (runs_non_interfering_pure _ _ H) as (Hc & _ & Hall). subst c'.
+    destruct (runs_non_interfering_pure _ _ _ _ _ H) as (Hc & _ & Hall). subst c'.
     destruct (Hall i r Hr) as (r' & A & B & _).
     exists r'; split; auto. intros fuel Hle.
     eapply iter_run_alone; eauto. eapply all_final_nth; eauto.
@@ -214,13 +213,14 @@ Section PureTheorems.
     rs1 = rs2.
   Proof.
     intros c c1 c2 s1 s2 rs rs1 rs2 H1 F1 H2 F2.
-    destruct (runs_non_interfering_pure _ _ H1) as (E1 & L1 & A1).
-    destruct (runs_non_interfering_pure _ _ H2) as (E2 & L2 & A2). subst c1 c2.
+    destruct (runs_non_interfering_pure _ _ _ _ _ H1) as (E1 & L1 & A1).
+    destruct (runs_non_interfering_pure _ _ _ _ _ H2) as (E2 & L2 & A2). subst c1 c2.
     apply nth_error_ext_eq. intro i.
     destruct (nth_error rs i) as [r|] eqn:Er.
     - destruct (A1 i r Er) as (r1 & N1 & I1 & _). destruct (A2 i r Er) as (r2 & N2 & I2 & _).
       rewrite N1, N2. f_equal.
-      eapply iter_final_unique; eauto; eapply all_final_nth; eauto.
+      exact (iter_final_unique c (count i s1) (count i s2) r r1 r2 I1 (all_final_nth c rs1 i r1 F1 N1)
+               I2 (all_final_nth c rs2 i r2 F2 N2)).
     - apply nth_error_None in Er.
       assert (nth_error rs1 i = None) as -> by (apply nth_error_None; lia).
       assert (nth_error rs2 i = None) as -> by (apply nth_error_None; lia). auto.
@@ -280,8 +280,8 @@ Lemma wstep_local_returns_own : forall sched g g',
   w_ret r' = Some (w_mine r).
 Proof.
   intros sched g g' H i r Hr Hpc r' Hr' Hf.
-  destruct (project_run (stepw := wstep_local) (fun _ : option N => tt) wstep_local_view_tt
-              wstep_local_reads_nothing _ _ H i Hr (s0 := None) eq_refl) as (sf & rf & A & B & _).
+  destruct (@project_run _ _ _ wstep_local (fun _ : option N => tt) wstep_local_view_tt
+              wstep_local_reads_nothing sched g g' H i r Hr None eq_refl) as (sf & rf & A & B & _).
   rewrite Hr' in B; inversion B; subst rf; clear B.
   (* r' is reached from r by [count] solo steps and is final: count = 2 *)
   destruct r as [pc mine ret]; simpl in *; subst pc.
@@ -291,4 +291,104 @@ Proof.
     unfold final, wstep_local in Hf; simpl in Hf. discriminate.
   - unfold wstep_local in A; simpl in A. inversion A; subst r'. reflexivity.
   - unfold wstep_local in A; simpl in A. discriminate.
+Qed.
+
+(* ---------------------------------------------------------------- the defect shape: a run writes a shared cell *)
+
+Definition w_ok : wrun := {| w_pc := 0; w_mine := None; w_ret := None |}.          (* ProcessState succeeds  *)
+Definition w_err : wrun := {| w_pc := 0; w_mine := Some 7%N; w_ret := None |}.     (* ProcessState fails (7) *)
+
+(* run 0 succeeds alone (returns nil) but returns run 1's error under the schedule 0,1,0,1 *)
+Lemma shared_write_foreign_error :
+  exists sched g g',
+    grun wstep_shared sched g = Some g' /\ all_final wstep_shared g' = true /\
+    exists r r' s rs,
+      nth_error (snd g) 0 = Some r /\ nth_error (snd g') 0 = Some r' /\
+      solo_run wstep_shared 2 (fst g) r = Some (s, rs) /\
+      w_ret rs = Some None /\ w_ret r' = Some (Some 7%N).
+Proof.
+  exists [0; 1; 0; 1]%nat, (None, [w_ok; w_err]). eexists. split; [vm_compute; reflexivity|].
+  split; [vm_compute; reflexivity|].
+  do 4 eexists. repeat split; vm_compute; reflexivity.
+Qed.
+
+(* run 1 fails alone (returns error 7) but returns nil under the schedule 1,0,1,0: its error is swallowed *)
+Lemma shared_write_swallowed_error :
+  exists sched g g',
+    grun wstep_shared sched g = Some g' /\ all_final wstep_shared g' = true /\
+    exists r r' s rs,
+      nth_error (snd g) 1 = Some r /\ nth_error (snd g') 1 = Some r' /\
+      solo_run wstep_shared 2 (fst g) r = Some (s, rs) /\
+      w_ret rs = Some (Some 7%N) /\ w_ret r' = Some None.
+Proof.
+  exists [1; 0; 1; 0]%nat, (None, [w_ok; w_err]). eexists. split; [vm_compute; reflexivity|].
+  split; [vm_compute; reflexivity|].
+  do 4 eexists. repeat split; vm_compute; reflexivity.
+Qed.
+
+(* hence the conclusion of [project_run] is FALSE for this system ... *)
+Lemma shared_write_breaks_projection :
+  ~ (forall sched g g', grun wstep_shared sched g = Some g' ->
+       forall i r, nth_error (snd g) i = Some r ->
+       exists s' r', solo wstep_shared (count i sched) (fst g) r = Some (s', r')
+                     /\ nth_error (snd g') i = Some r').
+Proof.
+  intro H.
+  assert (E : grun wstep_shared [0; 1; 0; 1]%nat (None, [w_ok; w_err])
+              = Some (Some 7%N, [ {| w_pc := 2; w_mine := None; w_ret := Some (Some 7%N) |};
+                                  {| w_pc := 2; w_mine := Some 7%N; w_ret := Some (Some 7%N) |} ]))
+    by (vm_compute; reflexivity).
+  destruct (H _ _ _ E 0%nat w_ok eq_refl) as (s' & r' & A & B).
+  vm_compute in A. vm_compute in B. inversion A; subst. inversion B.
+Qed.
+
+(* ... although each of the two hypotheses, taken alone, holds for it: *)
+(* with view = identity the runs read only the view (trivially), but they write it *)
+Lemma shared_write_reads_only_view_id : forall s1 s2 r, (fun x : option N => x) s1 = (fun x : option N => x) s2 ->
+  option_map snd (wstep_shared s1 r) = option_map snd (wstep_shared s2 r).
+Proof. intros s1 s2 r H; simpl in H; subst; auto. Qed.
+
+(* with the empty view nothing visible is written (trivially), but the runs read outside the view *)
+Lemma shared_write_preserves_view_tt : forall s r s' r', wstep_shared s r = Some (s', r') ->
+  (fun _ : option N => tt) s' = (fun _ : option N => tt) s.
+Proof. auto. Qed.
+
+(* ---------------------------------------------------------------- the small engine: a concrete interleaving *)
+
+(* START(0) -> 1 ; 1 -> 2,3 ; 2 -> 4 ; 3 -> 4 ; 4 -> END(9) *)
+Definition mini : crec :=
+  {| c_nodes := [(1, 2); (2, 3); (3, 5); (4, 1)]%N;
+     c_succ := [(0, [1]); (1, [2; 3]); (2, [4]); (3, [4]); (4, [9])]%N;
+     c_end := 9%N; c_max := 10; c_state0 := 100%N |}.
+
+(* 1 <-> 2 for ever: stopped by the step limit *)
+Definition mini_loop : crec :=
+  {| c_nodes := [(1, 1); (2, 1)]%N;
+     c_succ := [(0, [1]); (1, [2]); (2, [1])]%N;
+     c_end := 9%N; c_max := 3; c_state0 := 0%N |}.
+
+Definition mini_sched : list nat := [0; 1; 1; 0; 1; 0; 0; 1]%nat.
+
+Lemma mini_interleaved :
+  exists a b,
+    grun (lift superstep) mini_sched (mini, [rinit mini 5 0; rinit mini 11 3]) = Some (mini, [a; b]) /\
+    all_final (lift superstep) (mini, [a; b]) = true /\
+    run_alone superstep mini 10 (rinit mini 5 0) = Some a /\
+    run_alone superstep mini 10 (rinit mini 11 3) = Some b /\
+    r_result a = Some (Ok 97%N) /\ r_result b = Some (Ok 226%N) /\ r_state a <> r_state b.
+Proof.
+  do 2 eexists. split; [vm_compute; reflexivity|].
+  repeat split; try (vm_compute; reflexivity). vm_compute. discriminate.
+Qed.
+
+Lemma mini_loop_interleaved :
+  exists a b,
+    grun (lift superstep) [1; 0; 0; 1; 0; 1; 1; 0]%nat (mini_loop, [rinit mini_loop 1 0; rinit mini_loop 2 0])
+      = Some (mini_loop, [a; b]) /\
+    all_final (lift superstep) (mini_loop, [a; b]) = true /\
+    r_result a = Some (Err 1%N) /\ r_result b = Some (Err 1%N) /\
+    run_alone superstep mini_loop 10 (rinit mini_loop 1 0) = Some a.
+Proof.
+  do 2 eexists. split; [vm_compute; reflexivity|].
+  repeat split; vm_compute; reflexivity.
 Qed.
